@@ -349,6 +349,16 @@ EvalXfn(e, c) ==
       name == e.name
   IN
   IF AnyBad(a) THEN BadOf(a)
+  ELSE IF e.name = "evaluate" /\ e.lib \in {"dyn", "xalan"} THEN        \* EXSLT dyn:evaluate / xalan:evaluate: the string "is evaluated exactly as if it
+       (IF nargs # 1 THEN (IF e.lib = "dyn" THEN UnmV ELSE ErrV)         \* had been literally included in place of the call".  c.dyn says which expression
+        ELSE LET str == ToStr(F, a[1])                                   \* a string spells (XPathSyntax!Parse of its tokens, supplied by the binding)
+                 tab == IF "dyn" \in DOMAIN c THEN c.dyn ELSE <<>>
+                 hit == {k \in 1..Len(tab) : tab[k].text = str}
+                 ent == tab[CHOOSE k \in hit : TRUE] IN
+             IF hit = {} THEN UnmV
+             ELSE IF ~ent.ok THEN (IF e.lib = "dyn" THEN NS({}) ELSE ErrV)     \* EXSLT: "an invalid XPath expression ... returns an empty node set"
+             ELSE LET v == Eval(ent.ast, c) IN
+                  IF v.t = "err" /\ e.lib = "dyn" THEN NS({}) ELSE v)          \* "... or if evaluating it results in an error"
   ELSE IF e.lib = "xalan" /\ e.name = "hasSameNodes" THEN       \* xalan: "true if both node-sets contain exactly the same set of nodes"
        (IF nargs # 2 \/ ~isNs(1) \/ ~isNs(2) THEN ErrV ELSE BV(a[1].v = a[2].v))
   ELSE IF lib = "set" THEN
